@@ -1,0 +1,20 @@
+//go:build verif
+
+package p256
+
+// Contracts for the deductive checker in /verif (comment-only; compiled only under the verif tag).
+// Same decoder discipline as k256: a compressed encoding is accepted only with length 33 and tag 2 or 3, an
+// uncompressed one only with length 65 and tag 4; no byte string makes a decoder panic.
+// (Known open issue D1, not decided here: the point (0, sqrt(b)) of P-256 shares its compressed encoding with the
+// identity; the encoder is not under contract.)
+//@ func (*Curve).FromCompressed
+//@   property C13
+//@   bind F ringint, FP ringptr, Fp ringint, *Fp ringptr, C curveparams
+//@   nopanic
+//@   ensures err == nil ==> len(input) == compressedPointBytes && (input[0] == 2 || input[0] == 3)
+
+//@ func (*Curve).FromUncompressed
+//@   property C13
+//@   bind F ringint, FP ringptr, Fp ringint, *Fp ringptr, C curveparams
+//@   nopanic
+//@   ensures err == nil ==> len(input) == 65 && input[0] == 4
